@@ -3,7 +3,7 @@ CONSTANTS
   CIDS = {"c1", "c2", "x"}
   EVENTS <- MCEvents
   ENVS <- MCEnvs1
-  MaxSeq = 0
+  MaxSeq = 1
 INVARIANT ConnIff
 PROPERTIES SentDelivered SentInFlight FailedNeither NoPhantomInFlight DisabledSilent Scope ConnStep TickSeq
 CONSTRAINT Bound
